@@ -909,8 +909,18 @@ def stats(cases, obs):
       continue
     c['cases_' + cs.get('kind', 'heap')] += 1
     maxsize = 0
+    prev = {}
     for lb, st in zip(o['labels'], o['steps']):
       res = st['res']
+      if lb[0] == 'dispatch' and res.get('t') == 'sent' and 'heap' in prev:
+        inheap = set(a for a, _b in prev['heap'])
+        if any(x not in inheap for x in prev.get('downq', [])):
+          c['dispatch_walk_unlinked_departed_node'] += 1
+      if lb[0] == 'leave' and 'heap' in prev and any(e[0] == 'close' for e in st['events']):
+        ld = dict((a, b) for a, b in prev['heap'])
+        if any(ld.get(e[1], -1) > 0 for e in st['events'] if e[0] == 'close'):
+          c['leave_closed_loaded_marked_down_node'] += 1
+      prev = st.get('diag') or {}
       k = lb[0]
       c['label_' + k] += 1
       t = res.get('t')
